@@ -183,7 +183,11 @@ def rule_rights_monotone(ctx):
         sym = None
         for bi, i, s in b.stmts():
             fp = fields_of(s["lhs"])
-            if "castling_rights" in fp and fp[-1] != "castling_rights":
+            # a store into one of the four rights: by field path, or through a `&mut CastlingStatus` selected elsewhere
+            through_ref = bool(s["lhs"]["p"]) and s["lhs"]["p"][0] == "*" and s["lhs"].get("ty", "").endswith("castling::CastlingStatus") and "castling_rights" not in fp
+            if through_ref:
+                fp = fp + ("<through a reference>",)
+            if ("castling_rights" in fp and fp[-1] != "castling_rights") or through_ref:
                 n += 1
                 sym = sym or mir.Sym(b, ix)
                 st = status_of(sym.rvalue(s["rv"]))
